@@ -383,6 +383,20 @@ class Run:
             if ans2 == "sat" and vals is not None:
                 self.stats["sat"] += 1
                 return "sat", Model(None, vals)
+            if not (soft if soft is not None else label.endswith("witness")):
+                # last resort before giving up on a deciding query: fresh z3 instances with other seeds and twice the time
+                for extra_seed in (self.seed + 101, self.seed + 202):
+                    so2 = z3.new_solver(2 * timeout_ms, extra_seed)
+                    for a in assertions:
+                        so2.add(a if not isinstance(a, bool) else z3.BoolVal(a))
+                    t1 = time.time()
+                    r2 = str(z3.guarded_check(so2, timeout_ms=2 * timeout_ms))
+                    self.stats["solver_s"] += time.time() - t1
+                    self.stats["retries"] = self.stats.get("retries", 0) + 1
+                    if r2 in ("sat", "unsat"):
+                        self.stats[r2] += 1
+                        self.log(f"query {label}: decided ({r2}) on retry with seed {extra_seed}")
+                        return r2, (Model(so2.model(), None) if r2 == "sat" else None)
             if soft if soft is not None else label.endswith("witness"):
                 # a witness only feeds engine validation / vacuity sampling: no verdict depends on it
                 self.stats["witness_unknown"] = self.stats.get("witness_unknown", 0) + 1
